@@ -92,6 +92,7 @@ def harness(c: sym.Ctx, case: Dict[str, Any]) -> None:
             cur = set(current.values())
             c.check(all(p in cur for p in pids), "signals_only_own_current_workers", pids=pids, current=sorted(cur))
             c.check(all(int(e[3]) == int(real_signal.SIGINT) for e in kills), "signals_sigint", kills=[e[2:] for e in kills])
+            c.check(not any(e[4] for e in kills), "never_signals_a_pid_that_was_already_reaped", kills=[e[2:] for e in kills])
             live = [p for p in cur if not dead.get(p, False)]
             if len(live) < len(cur):
                 c.cover("shutdown_with_dead_worker")
